@@ -88,6 +88,27 @@ func Targets(o *Oracles) ([]*Target, error) {
 	return out, nil
 }
 
+// X32Target is the x32 ABI as a compilation target (reachable through the arch setter only): it shares the audit
+// architecture with x86_64, its numbers carry the x32 bit, and - by C04 - every event with that bit gets ERRNO(ENOSYS).
+func X32Target(o *Oracles) (*Target, error) {
+	info, err := arch.GetInfo("x32")
+	if err != nil {
+		return nil, err
+	}
+	t := &Target{Name: "x32", Info: info, ID: o.AuditArch["X86_64"], X32Guard: true, Num: map[string]uint32{}}
+	for name, nr := range info.SyscallNames {
+		v := uint32(nr)
+		if onr, ok := o.Tables["x32"]["uapi"][name]; ok {
+			v = uint32(onr)
+			t.OracleBacked++
+		}
+		t.Num[name] = v | X32Bit
+		t.Names = append(t.Names, name)
+	}
+	sort.Strings(t.Names)
+	return t, nil
+}
+
 // AllAuditArch returns every AUDIT_ARCH value of linux/audit.h, sorted.
 func (o *Oracles) AllAuditArch() []uint32 {
 	var v []uint32
